@@ -295,7 +295,11 @@ impl<const K: usize> AffTree<K> {
         }
 
         for (label, node) in to_remove {
-            let _ = self.tree.try_remove_child(node, label);
+            // A decision keeps its last branch even when that branch is infeasible: without
+            // children it would be flagged as a terminal while it still holds a predicate.
+            if self.tree.contains(node) && self.tree.num_children(node) > 1 {
+                let _ = self.tree.try_remove_child(node, label);
+            }
         }
 
         counter
